@@ -564,7 +564,11 @@ func (c16) Run(ts *tape.Set, tier Tier) *Result {
 		res.Excerpt = excerpt(base.st.Log, 12)
 		return res
 	}
-	sig := sigOfLog(fnvMix(0, uint64(which)), base.st.Log)
+	// the order in which sibling shards are written follows Go's map order
+	// inside the builder, which the simulator does not own: the signature uses
+	// the MULTISET of the fault-free build's seam events, and nothing of the
+	// event order of faulted executions
+	sig := sigOfLogBag(fnvMix(0, uint64(which)), base.st.Log)
 	if which == 0 && sc.Blocks > width+1 {
 		res.probe("multi-level-file")
 	}
@@ -657,7 +661,6 @@ func (c16) Run(ts *tape.Set, tier Tier) *Result {
 			posClass = 0
 		}
 		sig = fnvMix(sig, tape.HashString(p.what), uint64(posClass), boolU(o.err == nil), boolU(o.link == nil))
-		sig = sigOfLog(sig, excerpt(o.st.Log, 6))
 		if o.panicked {
 			fail(&p, "c16/panic@"+o.site, "panic: %s", o.pmsg)
 			res.Excerpt = excerpt(o.st.Log, 12)
